@@ -18,6 +18,7 @@ RULE = ("12 predefined sizes x 20 residues (exhaustive) through single-residue a
         "all sizes; random total, partial and invalid user alphabets (quick 800, thorough 6000), several per live "
         "object; distinct = distinct (size or user map, sequence); non-trivial = all")
 RULE += ("; added after the mutation rounds: integer-valued spellings of the size ('5', ' 12 ', 5.0, numpy int); returned alphabets emptied by the caller; user dictionaries with extra non-amino-acid keys; the first cases of every shard are judged again at its end")
+RULE += ("; round 5: extra keys with arbitrary values; an amino acid mapped onto an extra key (must be rejected)")
 EXHAUSTIVE = {"quick": False, "thorough": False}
 EXHAUSTIVE_NOTE = {"quick": "12 sizes x 20 residues enumerated completely; integer sizes 0..25",
                    "thorough": "12 sizes x 20 residues enumerated completely; integer sizes 0..25"}
